@@ -19,7 +19,7 @@ SPEC_BUILTINS = {
     "allocated", "content_unchanged", "field_unchanged", "is_none", "not_none", "seq_len", "seq_at", "disjoint",
     "mmap_of", "mset_of", "let", "Real", "Int", "TRUE", "FALSE", "INF", "null", "mset_remove", "same_object",
     "is_open_state", "lemma", "select", "store", "trunc0", "cls_of", "idiv", "imod", "to_real", "to_int", "floor",
-    "inflt", "clock", "at_suspend", "ENTRY", "mkval", "val_at", "mmap_add", "mmap_sub", "nonempty", "mset_single", "mmap_empty", "mmap_put", "pure_call", "unchanged_except", "xor", "distinct",
+    "inflt", "clock", "at_suspend", "ENTRY", "mkval", "val_at", "mmap_add", "mmap_sub", "nonempty", "msum", "sum_axiom_bound", "sum_axiom_eq", "sum_axiom_update", "sum_axiom_remove", "sum_axiom_insert", "sum_axiom_empty", "mset_single", "mmap_empty", "mmap_put", "pure_call", "unchanged_except", "xor", "distinct",
 }
 
 unit = z3.Function("unit", z3.IntSort(), z3.RealSort())
@@ -33,6 +33,19 @@ card_id = z3.Function("card_id", z3.ArraySort(IdS, z3.BoolSort()), z3.IntSort())
 str_concat = z3.Function("str_concat", StrS, StrS, StrS)
 str_of_real = z3.Function("str_of_real", z3.RealSort(), StrS)
 str_of_int = z3.Function("str_of_int", z3.IntSort(), StrS)
+
+_MSUM = {}
+
+
+def msum(dom, F):
+    """SUM over the keys in dom of F[k]: one uninterpreted function per key sort; all reasoning through the sum axioms"""
+    ks = dom.sort().domain()
+    f = _MSUM.get(ks.name())
+    if f is None:
+        f = z3.Function("msum_" + ks.name(), z3.ArraySort(ks, z3.BoolSort()), z3.ArraySort(ks, z3.RealSort()), z3.RealSort())
+        _MSUM[ks.name()] = f
+    return f(dom, F)
+
 
 owner_obj = z3.Function("owner_obj", RefS, RefS)
 owner_fld = z3.Function("owner_fld", RefS, z3.IntSort())
@@ -105,7 +118,9 @@ def _collect(e, seen, apps):
         if z3.is_app(t):
             d = t.decl()
             nm = d.name()
-            if nm in ("q_down", "q_up", "q_he", "grid", "unit", "card_str", "card_ref", "card_id") and d.arity() > 0:
+            if (nm in ("q_down", "q_up", "q_he", "grid", "unit", "card_str", "card_ref", "card_id") or nm.startswith("msum_")) and d.arity() > 0:
+                if nm.startswith("msum_"):
+                    nm = "msum"
                 # skip applications that mention bound variables
                 if not _has_var(t):
                     apps.setdefault(nm, {})[tid] = t
@@ -294,6 +309,14 @@ def _real_equalities(fs):
     return out
 
 
+def apps_all(formulas, extra):
+    apps = {}
+    seen = set()
+    for f in list(formulas) + list(extra):
+        _collect(f, seen, apps)
+    return apps
+
+
 def card_axioms(t, pairs=()):
     """AX-CARD: card >= 0, card = 0 iff empty, and for a set contained in {a, b} (a != b): card = [a in S] + [b in S]"""
     d = t.arg(0)
@@ -367,6 +390,21 @@ def instantiate(formulas, rounds=2):
         todo = new
         if not new:
             break
+    # AX-SUM-EQ between every two ground sums whose summand arrays are applications with the same arguments (the same
+    # sum written in two program states): same keys and same terms on them => same sum
+    sums = list(apps_all(formulas, extra).get("msum", {}).values())
+    def _args(t):
+        F = t.arg(1)
+        return tuple(a.get_id() for a in F.children()) if z3.is_app(F) and F.num_args() > 0 else ()
+    for i in range(len(sums)):
+        for j in range(i + 1, len(sums)):
+            a, b = sums[i], sums[j]
+            if a.sort() != b.sort() or a.arg(0).sort() != b.arg(0).sort() or _args(a) != _args(b) or len(extra) > 60000:
+                continue
+            jv = z3.FreshConst(a.arg(0).sort().domain(), "j")
+            extra.append(z3.Implies(z3.ForAll([jv], z3.And(z3.Select(a.arg(0), jv) == z3.Select(b.arg(0), jv),
+                                                           z3.Implies(z3.Select(a.arg(0), jv), z3.Select(a.arg(1), jv) == z3.Select(b.arg(1), jv)))),
+                                    a == b))
     # grid closure over all grid atoms seen in formulas + extra: a small fixpoint of
     #   (a) congruence helper: for an equation  t == e  between reals where grid(t, p) is an atom, e becomes an atom too
     #   (b) structural closure (sum / difference / negation / ite / integer multiple) which introduces atoms for sub-terms
